@@ -1128,6 +1128,21 @@ def _verbatim(repo, rep):
               f.qualname, "a foreign processing instruction is re-assembled "
               "from all of its captured parts", construct="pi",
               where=L.where(f))
+    # ... and it is handed on: neither the parser's nor the program's
+    # visitor of processing instructions has an exit without a value (a
+    # visitor that returns nothing drops the token from the document)
+    for fq in (PARSER + ".ElementParser.visit_processing_instruction",
+               PROG + "visit_processing_instruction"):
+        fp = repo.func(fq)
+        rets = [r_ for r_ in ast.walk(fp.node) if isinstance(r_, ast.Return)]
+        ends_ret = bool(fp.node.body) and isinstance(fp.node.body[-1],
+                                                     (ast.Return, ast.Raise))
+        rep.check(bool(rets) and ends_ret and not any(
+            r_.value is None or (isinstance(r_.value, ast.Constant)
+                                 and r_.value.value is None) for r_ in rets),
+            "R03.4", fp.qualname, "every exit of the processing-instruction "
+            "visitor hands a node on", construct="pi-returned",
+            where=L.where(fp))
     # Compiler.visit joins adjacent EmitText without loss
     f = repo.func(COMP + "visit")
     text = L.text(f.node)
